@@ -22,7 +22,7 @@ func checkC13(r *Run) {
 	ruleBasicSampler(r, p)
 	ruleBurstSampler(r, p)
 	ruleLevelSlots(r, p, "LEVEL", "LevelSampler", "Sample", "Sampler", 1, "result")
-	ruleA14(r, p, "A14", map[string]bool{"": true}, []string{"BasicSampler.counter", "BurstSampler.counter", "BurstSampler.resetAt", "gLevel", "disableSampling"})
+	ruleA14(r, p, "A14", map[string]bool{"": true}, []string{"BasicSampler.counter", "BurstSampler.counter", "BurstSampler.resetAt", "@SetGlobalLevel|GlobalLevel", "@DisableSampling|samplingDisabled"})
 	r.Floor("GATE", 7)
 	r.Floor("SWITCH", 2)
 	r.Floor("BASIC", 4)
